@@ -25,7 +25,7 @@ def cases(tier, seed):
     for sc, c in common.add_algs(common.wide_scope(lvl), lambda c: [
             a for a in common.wide_algs(c, lvl) if a["kind"] == "batch"]):
         out.append((sc, c))
-    for sc, c in bat[::8 if tier != "thorough" else 1]:
+    for sc, c in common.thin(bat, 8 if tier != "thorough" else 1):
         for p in (1, 2):
             cc = dict(c)
             cc["alg"] = {"kind": "advbatch", "p": p, "min": 1,
